@@ -223,7 +223,12 @@ func genMergeTrace(r *Rng, g *EvGen, allowDupInFlight bool) (int, []mergeStep) {
 			subs[name] = &subSt{fs: fs, eoseTodo: all()}
 			steps = append(steps, mergeStep{K: "client", C: &mocrelay.ClientReqMsg{SubscriptionID: name, ReqFilters: fs}})
 		case 2:
-			name := pick(r, subNames)
+			// CLOSE of a REQ id — or of an id that a COUNT in flight uses (the id spaces of REQ and COUNT overlap:
+			// a CLOSE concerns the subscription only, a pending COUNT must still get its one reply)
+			name := pick(r, append(append([]string{}, subNames...), "c1", "c2"))
+			if len(pcnts) > 0 && r.P(40) {
+				name = pcnts[r.Intn(len(pcnts))].sub
+			}
 			if s, ok := subs[name]; ok {
 				s.closed = true
 			}
@@ -247,7 +252,7 @@ func genMergeTrace(r *Rng, g *EvGen, allowDupInFlight bool) (int, []mergeStep) {
 			pevs = append(pevs, &pendEv{e: e, todo: all()})
 			steps = append(steps, mergeStep{K: "client", C: &mocrelay.ClientEventMsg{Event: e}})
 		case 4:
-			name := pick(r, []string{"c1", "c2"})
+			name := pick(r, []string{"c1", "c2", "c1", "c2", "s1", "s2"})
 			dup := false
 			for _, p := range pcnts {
 				if p.sub == name {
